@@ -340,6 +340,19 @@ func execC15(c C15Case) *Failure {
 			if r.Method == "zz/unknown" {
 				t.Del("params")
 			}
+			if p := t.Get("params"); p != nil && p.K == 'o' && !r.Notif && seq%5 == 3 {
+				// parameters may carry further members of any name, the envelope's own member names included: the message stays
+				// the request its "method" says it is
+				switch seq % 3 {
+				case 0:
+					p.Set("result", oNull())
+				case 1:
+					p.Set("error", oObj("code", oInt(1), "message", oStr("not an answer")))
+				default:
+					p.Set("id", oInt(7))
+					p.Set("method", oStr("ping"))
+				}
+			}
 			if r.Notif {
 				t.Del("id")
 				t.Set("method", oStr("notifications/verif-"+strings.ReplaceAll(r.Method, "/", "-")))
